@@ -1,9 +1,9 @@
 #!/bin/bash
-# usage: [FEATURES=a,b] [TESTUTIL=1] tools/seedverify.sh <ID> <n>   -- independently confirm a seeded change in its scratch worktree
+# usage: [WTROOT=/tmp/wt2 SEEDROOT=/tmp/seed2] [FEATURES=a,b] [TESTUTIL=1] tools/seedverify.sh <ID> <n>   -- independently confirm a seeded change in its scratch worktree
 # TESTUTIL=1 adds tokio's "test-util" feature to the dev-dependency (demonstrations that use a paused clock); the 73-test
 # suite is run on the pristine Cargo.toml without the demonstration.
 ID=$1; N=$2
-WT=/tmp/wt/$ID; S=/tmp/seed/$ID
+WT=${WTROOT:-/tmp/wt}/$ID; S=${SEEDROOT:-/tmp/seed}/$ID
 cd $WT || exit 2
 git checkout -q -- . ; git clean -fdq tests src 2>/dev/null
 rm -f tests/seeded_demo*.rs tests/seeded-demo*.rs
